@@ -78,11 +78,13 @@ PAIRS = {"<start>": ["<pair>", "<pair>;<start>"], "<pair>": ["<entry>=<entry>"],
 # evaluated after ASSGN2 in the same interpreter (state kept per nonterminal name must not leak across grammars)
 ASSGN2S = {"<start>": ["<stmt>"], "<stmt>": ["<assgn> ; <stmt>", "<assgn>"], "<assgn>": ["<var> := <rhs>", "!<var>"],
            "<rhs>": ["<var>", "<digit>"], "<var>": ["a", "b"], "<digit>": ["0", "1", "#<var>"]}
+# terminals that look like markup: bracket-delimited but with a blank inside, so not nonterminals
+MARKUP = {"<start>": ["<doc>"], "<doc>": ["<!DOCTYPE html><body>", "<body>"], "<body>": ["<br /><body>", "<p><body>", ""], "<p>": ["x", "<br />"]}
 SIBLING_OF = {"ASSGN2S": ("ASSGN2", "a := 1 ; b := a")}      # grammar -> (earlier grammar, an input of it)
 WIDE12 = {"<start>": ["<row>"], "<row>": ["<d>" * 12], "<d>": ["0", "1"]}
 
 GRAMMARS = {
-    "SHAREDALT": SHAREDALT, "PAIRS": PAIRS, "ASSGN2S": ASSGN2S, "WIDE12": WIDE12,
+    "SHAREDALT": SHAREDALT, "PAIRS": PAIRS, "ASSGN2S": ASSGN2S, "WIDE12": WIDE12, "MARKUP": MARKUP,
     "ASSGN": ASSGN, "ASSGN2": ASSGN2, "XMLISH": XMLISH, "NUM": NUM, "NULLABLE": NULLABLE,
     "AMBIG": AMBIG, "LEFTREC": LEFTREC, "RIGHTREC": RIGHTREC, "MULTICHAR": MULTICHAR,
     "CSVISH": CSVISH, "TWOSTART": TWOSTART, "LENGTHS": LENGTHS,
